@@ -13,7 +13,10 @@ META = {
                   'with the specification state, so histories the unit tests never compose are decided.',
     'level_note': 'Bounded: <= 4 nodes exhaustively, <= 6 nodes / depth <= 40 by simulation with sampled arguments; '
                   'trusted: TLC, the TLA+ value parser, the projection (sym_parent, sym_path, sym_items, KeyPath.query). '
-                  'A root\'s own sym_path is not compared (paths are compared relative to the root).',
+                  'A root\'s own sym_path is not compared (paths are compared relative to the root). Rejected writes are '
+                  'modelled for one typed list kind (symbolic members only, never empty: TypeError / ValueError must leave the '
+                  'tree unchanged, RejectedMeansUnchanged); sealed nodes, a class whose instances are born sealed and a dict '
+                  'key that contains a dot are part of the simulated configurations.',
 }
 
 CLAUSES = {'parent', 'path', 'lookup', 'oneplace', 'bind'}
